@@ -68,6 +68,8 @@ func seqScript(c SeqCase) string {
 			b.WriteString("x = (<-c)\nr += [[\"recv\", x]]\n")
 		case "rk":
 			b.WriteString("v, ok = <-c\nr += [[\"recvok\", v, ok]]\n")
+		case "sw":
+			b.WriteString("switch <-c {\ncase 5:\n r += [[\"switch\", 5]]\ncase 2:\n r += [[\"switch\", 2]]\ncase 1:\n r += [[\"switch\", 1]]\ncase nil:\n r += [[\"switch\", nil]]\ndefault:\n r += [[\"switch\", \"other\"]]\n}\n")
 		case "rl":
 			b.WriteString("d <- c\nr += \"relay\"\n")
 		case "dl":
@@ -99,6 +101,12 @@ func seqExpected(c SeqCase) []interface{} {
 				out = append(out, []interface{}{"recv", int64(o.A)})
 			} else {
 				out = append(out, []interface{}{"recv", nil})
+			}
+		case "switch":
+			if o.B == 1 {
+				out = append(out, []interface{}{"switch", int64(o.A)})
+			} else {
+				out = append(out, []interface{}{"switch", nil})
 			}
 		case "recvok":
 			out = append(out, []interface{}{"recvok", int64(o.A), o.B == 1})
@@ -168,6 +176,27 @@ func seq(in, out string) {
 	if err != nil {
 		fmt.Fprintln(os.Stderr, err)
 		os.Exit(2)
+	}
+	// the capacity law of AnkoChanSeq (CapacityLaw, checked by TLC for small capacities) at scale: n sends without a receiver, close, drain in order
+	for _, n := range []int{3, 1000, 65535, 65536, 65537, 70000, 300000} {
+		for _, elem := range []string{"int64", "interface"} {
+			src := fmt.Sprintf("c = make(chan %s, %d)\nfor i = 0; i < %d; i++ {\n c <- i\n}\nl = len(c)\nclose(c)\nk = 0\nbad = 0\nfor v in c {\n if v != k {\n  bad++\n }\n k++\n}\nreturn [l, k, bad]\n", elem, n, n)
+			ctx, cancel := context.WithTimeout(context.Background(), 20*time.Second)
+			got, err := execute(ctx, src, nil)
+			cancel()
+			sum.Cases++
+			sum.Runs++
+			exp := []interface{}{int64(n), int64(n), int64(0)}
+			if err != nil || !reflect.DeepEqual(norm(got), norm(exp)) {
+				sum.NMismatch++
+				g := got
+				if err != nil {
+					g = "error: " + err.Error()
+				}
+				sum.Mismatches = append(sum.Mismatches, Mismatch{What: fmt.Sprintf("capacity law at scale: a channel made with capacity %d takes %d sends without a receiver and hands them out in order", n, n), Src: src, Exp: exp, Got: g,
+					Case: SeqCase{Cap: n, Ops: []string{"scale"}}})
+			}
+		}
 	}
 	b, _ := json.Marshal(sum)
 	os.WriteFile(out, b, 0o644)
